@@ -12,8 +12,11 @@ SPEC = dict(
          'non-trivial = reached >=2 entries and executed >=1 removal. After every operation: size, isEmpty, forward and backward iteration (keys and values), front/back, '
          'find/contains for every universe key and 3 absent keys (find must return the entry at the model position), returned iterator / reference position, '
          'operator==/!= in both directions against the second table vs order-sensitive model equality, and the structural walk through the access override '
-         '(order list links, every item in exactly the bucket hash%capacity, cell back-pointers, acyclic chains, sum of chain lengths == size, free list disjoint from live items, '
-         'live + free == 4 * blocks).',
+         '(order list links, every item in exactly the bucket hash%capacity, cell back-pointers, acyclic chains, sum of chain lengths == size, capacity member changes only by '
+         'swap/assignment, free list acyclic and disjoint from live items, every live and free item inside a block of the table and not overlapping another one, '
+         'live + free == slots of the blocks with the slot count of each block derived from its allocation size under ASan - no slot count, default capacity or other tuning '
+         'constant of the implementation is assumed). When the private members the walker reads cannot be compiled against (renamed), the harness is built with '
+         '-DVERIF_NO_PRIVATE: all public-API oracles stay, the walker and the chain-position classes are absent (evidence field degraded_no_private_access).',
     assumptions=['ASan/UBSan red zones; library ASSERTs enabled (-DDEBUG)',
                  'self-assignment / self-swap / self-argument bulk operations are not generated here (property C04)',
                  'HashMap/PoolMap::front() const and back() const cannot be instantiated and are not called; the non-const overloads are'],
@@ -28,14 +31,14 @@ SPEC = dict(
         job('hset-O2', 'h_hash', 'hset', variant='plain', cases={Q: 3000, T: 20000}, procs=8, args=['--start', '500000']),
         job('pmap-O2', 'h_hash', 'pmap', variant='plain', cases={Q: 3000, T: 20000}, procs=8, args=['--start', '500000']),
     ],
-    floors={Q: dict(ops=2500000, lookups=70000000, structure_walks=2500000, insert_existing_key=800000, eq_true_nonempty=200000, eq_false_same_size=200000, op_swap=130000,
+    floors={Q: dict(ops=2500000, lookups=70000000, structure_walks=2500000, walks_with_block_sizes=2000000, insert_existing_key=800000, eq_true_nonempty=200000, eq_false_same_size=200000, op_swap=130000,
                     op_copy_construct=90000, op_assign=50000, op_bulk_append=18000, op_bulk_remove=18000, op_remove_value=23000, op_remove_key=200000, op_remove_it=150000,
                     op_insert_pos=300000, op_clear=150000, max_chain_length=40,
                     **{'set:chain_remove_pos': 5, 'set:insert_positions': 5, 'set:key_families': 12, 'set:capacities': 7, 'set:chain_lengths': 40, 'set:equality_relations': 6,
-                       'set:swap_classes': 8, 'set:assign_classes': 4}),
-            T: dict(ops=23000000, lookups=650000000, structure_walks=21000000, insert_existing_key=7000000, eq_true_nonempty=1700000, eq_false_same_size=1900000, op_swap=1100000,
+                       'set:swap_classes': 8, 'set:assign_classes': 4, 'set:slots_per_block': 1}),
+            T: dict(ops=23000000, lookups=650000000, structure_walks=21000000, walks_with_block_sizes=8000000, insert_existing_key=7000000, eq_true_nonempty=1700000, eq_false_same_size=1900000, op_swap=1100000,
                     op_copy_construct=800000, op_assign=450000, op_bulk_append=150000, op_bulk_remove=150000, op_remove_value=200000, op_remove_key=2000000, op_remove_it=1400000,
                     op_insert_pos=2800000, op_clear=1800000, max_chain_length=45,
                     **{'set:chain_remove_pos': 5, 'set:insert_positions': 5, 'set:key_families': 12, 'set:capacities': 7, 'set:chain_lengths': 45, 'set:equality_relations': 6,
-                       'set:swap_classes': 8, 'set:assign_classes': 4})},
+                       'set:swap_classes': 8, 'set:assign_classes': 4, 'set:slots_per_block': 1})},
 )
